@@ -1068,9 +1068,9 @@ pub fn check() -> Check {
         "part roundtrip: generated payloads of every kind (V1/V2 notarized, user dispatch, (signed) partial, preview, system, round update, flash, ledger, bare intents) must decode and re-encode to the same bytes (typed model and AnyTransaction), prepare must succeed and every named hash must equal the harness's own transcription of the documented hashing scheme (blake2 crate); 1/6 of the cases rebuild a V1 transaction through the repository's TransactionBuilder and demand the identical transaction. part perturb: exactly one model field of a V1 / V2 / partial transaction is changed; hashes of parts containing the field must change, hashes of parts not containing it must not, and all hashes must again equal the reference. part bytes: 1-2 byte-level mutations (bit flip, replace, insert, delete, truncate, append, LEB128 padding, wrong payload discriminator, trailing bytes) of a raw payload: it is rejected, or it has a different identifier and re-encodes to exactly the mutated bytes. part limits: payload length, blob count, subintent count, children-per-intent limits at limit-1 / limit / limit+1 and the V2-not-permitted switch. Non-trivial = payload with subintents, or a perturbation inside a nested part (blob, message, child list), or a mutant accepted by prepare, or an exact limit boundary.",
     )
     .assume("manifest_encode of the individual parts is trusted (C20 covers SBOR)")
-    .part(Part::new("roundtrip", 60_000, 2_400_000, 1200, roundtrip_or_twin))
-    .part(Part::new("perturb", 60_000, 2_400_000, 1200, perturb))
-    .part(Part::new("bytes", 120_000, 5_000_000, 1200, bytes))
-    .part(Part::new("limits", 12_000, 400_000, 1200, limits))
+    .part(Part::new("roundtrip", 400_000, 12_000_000, 1200, roundtrip_or_twin))
+    .part(Part::new("perturb", 400_000, 12_000_000, 1200, perturb))
+    .part(Part::new("bytes", 800_000, 25_000_000, 1200, bytes))
+    .part(Part::new("limits", 60_000, 2_000_000, 1200, limits))
     .min_nontrivial_pct(20.0)
 }
